@@ -235,8 +235,8 @@ impl Check for C05 {
     }
     fn cases(&self, tier: Tier) -> u64 {
         match tier {
-            Tier::Quick => 60_000,
-            Tier::Thorough => 2_500_000,
+            Tier::Quick => 400_000,
+            Tier::Thorough => 15_000_000,
         }
     }
     fn exhaustive_note(&self, tier: Tier) -> Option<String> {
